@@ -469,6 +469,11 @@ func spellAll(ts []sTok, p sPol) []byte {
 			case "cmt":
 				out = append(out, '%', 'c', '!')
 				out = append(out, eolOf(p)...)
+			case "cmt2":
+				out = append(out, '%', 'a')
+				out = append(out, eolOf(p)...)
+				out = append(out, ' ', '%')
+				out = append(out, eolOf(p)...)
 			}
 		}
 		out = append(out, sp...)
@@ -505,7 +510,7 @@ func c06Record(in, out string) error {
 			return fail("decode", "decode", err.Error(), nil)
 		}
 		rnd := newRand(int64(ci) + 606)
-		wsS := []string{"min", "one", "all", "cmt"}
+		wsS := []string{"min", "one", "all", "cmt", "cmt2"}
 		eolS := []string{"lf", "cr", "crlf"}
 		strS := []string{"lit", "oct", "cont", "hex", "hexws"}
 		nameS := []string{"plain", "esc"}
